@@ -2127,7 +2127,11 @@ impl<'a> Socket<'a> {
                         }
                     );
 
-                    if self.local_rx_dup_acks == 3 {
+                    // Fast retransmit resends data from the transmit buffer. If only
+                    // a FIN is outstanding there is nothing for it to resend, and
+                    // replacing the retransmission timer would leave the FIN without
+                    // any timer; keep waiting for the RTO in that case.
+                    if self.local_rx_dup_acks == 3 && !self.tx_buffer.is_empty() {
                         self.timer.set_for_fast_retransmit();
                         net_debug!("started fast retransmit");
                     }
